@@ -4,7 +4,8 @@
 From Coq Require Import List NArith Bool String.
 From TG.Gen Require Import GenTokens GenLexTables GenGrammar GenAst GenDocGrammar.
 From TG.Model Require Import Chars Lexer Tree ParserPrims GInterp DocGrammar Completion GramAbs GramCert AstAccess AstAccessInst TokSem.
-From TG.Proofs Require Import GramSound AccessProofs TokRefine TokFrame TokComplete TokType TokRange C04Proofs.
+From TG.Model Require Import GramComp.
+From TG.Proofs Require Import GramSound AccessProofs TokRefine TokFrame TokComplete TokType TokRange C04Proofs GramCompSound C04Complete.
 Import ListNotations.
 Close Scope string_scope.
 Open Scope list_scope.
@@ -113,6 +114,83 @@ Example C04_rangesuffix_word_example :
   derives doc_rules_must nt_RangeSuffix
     [T_LBrace; T_IntVal; T_Comma; T_IntVal; T_Minus; T_IntVal; T_Comma; T_IntVal; T_DotDotDot; T_IntVal; T_RBrace].
 Proof. exact range_suffix_example. Qed.
+
+(** ---- Completeness for (almost) the whole documented grammar, by a reflective LL(1)-style checker (model/GramComp.v) ----
+    [check_complete G p C fuel] executes every certified grammar function symbolically on ALL words of its nonterminal
+    (residuals = partial derivatives of the documented right-hand side; current token split over FIRST / FOLLOW; calls of
+    certified functions through the derivative by the callee's nonterminal, falling back to the callee's body; loops by
+    saturation with a progress check; anything that records an error, panics or leaves part of the word fails the check).
+    The certificate C (function -> nonterminal by NAME, nullable / FIRST tables, FOLLOW sets, ranks) is computed by untrusted
+    iteration and VALIDATED by the check.  Soundness, once and for all, for every grammar, program and certificate: *)
+Theorem C04_complete_checker_sound : forall G p C fuel, check_complete G p C fuel = true ->
+  forall M f w, cc_mode C f = Some M -> (f < List.length (fns p))%nat -> derives G M w ->
+  forall k rest e en, In k (cc_fol C M) ->
+    exists m, texec m p (ECall f None) en (mk_ts (w ++ k :: rest) e) = TVal (VB true) en (mk_ts (k :: rest) e).
+Proof. exact check_complete_sound. Qed.
+Print Assumptions C04_complete_checker_sound.
+
+(** Instance: the generated grammar program against the documented grammar (doc_rules_must = syntax.md + rule comments minus
+    the rejects:* deltas).  [comp_covered] = 61 (nonterminal, function) pairs.  For the 55 nonterminals that cannot reach `If`
+    ([comp_iffree]) the statement is about the documented grammar itself: EVERY word w of the nonterminal, every follower
+    k in its FOLLOW set [comp_followers] (computed; validated), every rest of input, every parser state whose upcoming tokens
+    are  w ++ k :: rest : the function returns true, has consumed exactly w and recorded NO error (or the model panics:
+    excluded by C02), for all sufficiently large fuels. *)
+Theorem C04_complete_all : forall m f, In (m, f) comp_covered -> In m comp_iffree ->
+  forall w, derives doc_rules_must m w -> forall k rest, In k (comp_followers m) ->
+  exists n0, forall n s, (n0 <= n)%nat -> Toks s (w ++ k :: rest) -> after_err s = false ->
+    match gexec n grammar_prog (ECall f None) [] s with
+    | RPanic => True
+    | RVal v _ s' => v = VB true /\ Toks s' (k :: rest) /\ nerr s' = nerr s /\ after_err s' = false
+    | _ => False
+    end.
+Proof. exact comp_complete_doc. Qed.
+Print Assumptions C04_complete_all.
+(** For the other 6 covered nonterminals (they contain statements) the same holds for [comp_grammar] = the documented grammar
+    with the rule of `If` emptied, i.e. for programs without `if` statements: `if c then if d then X else Y` makes the
+    documented grammar ambiguous (dangling else), so "consumes exactly a word of If, whatever admissible token follows" is
+    false for the follower `else`.  [comp_grammar] only has fewer words ([C04_complete_iffree_sub]). *)
+Theorem C04_complete_iffree : forall m f, In (m, f) comp_covered ->
+  forall w, derives comp_grammar m w -> forall k rest, In k (comp_followers m) ->
+  exists n0, forall n s, (n0 <= n)%nat -> Toks s (w ++ k :: rest) -> after_err s = false ->
+    match gexec n grammar_prog (ECall f None) [] s with
+    | RPanic => True
+    | RVal v _ s' => v = VB true /\ Toks s' (k :: rest) /\ nerr s' = nerr s /\ after_err s' = false
+    | _ => False
+    end.
+Proof. exact comp_complete_model. Qed.
+Print Assumptions C04_complete_iffree.
+Theorem C04_complete_iffree_sub : forall n w, derives comp_grammar n w -> derives doc_rules_must n w.
+Proof. exact comp_grammar_sub. Qed.
+(** precisely what is covered *)
+Example C04_complete_covered_doc : comp_covered_doc_names =
+  ["Include"; "String"; "Assert"; "Value"; "InnerValue"; "SimpleValue"; "Integer"; "Code"; "Boolean"; "Uninitialized"; "Bits"; "List";
+   "Type"; "BitType"; "IntType"; "StringType"; "DagType"; "BitsType"; "ListType"; "CodeType"; "ClassId"; "Identifier"; "Dag"; "DagArg";
+   "ClassValue"; "ArgValueList"; "BangOperator"; "CondOperator"; "CondClause"; "RangeSuffix"; "RangeList"; "RangePiece"; "SliceSuffix";
+   "SliceElements"; "SliceElement"; "FieldSuffix"; "Class"; "TemplateArgList"; "TemplateArgDecl"; "RecordBody"; "ParentClassList";
+   "ClassRef"; "Body"; "BodyItem"; "FieldDef"; "FieldLet"; "Defvar"; "Dump"; "Def"; "NameValue"; "Defm"; "ForeachIterator";
+   "ForeachIteratorInit"; "LetList"; "LetItem"]%string.
+Proof. vm_compute. reflexivity. Qed.
+Example C04_complete_covered_iffree_only : comp_covered_iffree_only_names =
+  ["Statement"; "Defset"; "Foreach"; "Let"; "MultiClass"; "MultiClassStatement"]%string.
+Proof. vm_compute. reflexivity. Qed.
+(** NOT covered: If (ambiguity above), SourceFile / the top-level StatementList (their follower is the end of input, the
+    theorems need one unread token), and the helper rules no function parses (they are unfolded inside the others).
+    Followers, e.g.: *)
+Example C04_complete_followers_value :
+  (match nt_index "Value"%string with Some m => comp_followers m | None => [] end) =
+  [T_Then; T_In; T_Equal; T_Greater; T_Semi; T_DotDotDot; T_Minus; T_IntVal; T_BinaryIntVal; T_RBrace; T_RSquare; T_Colon; T_Comma; T_RParen].
+Proof. vm_compute. reflexivity. Qed.
+Example C04_complete_followers_statement :
+  (match nt_index "Statement"%string with Some m => comp_followers m | None => [] end) =
+  [T_Include; T_Class; T_Defset; T_Defvar; T_MultiClass; T_If; T_Assert; T_Def; T_Defm; T_Dump; T_Foreach; T_Let; T_RBrace].
+Proof. vm_compute. reflexivity. Qed.
+(** non-vacuity: `x # 1` is a word of Value, `def x ;` a word of Def *)
+Example C04_complete_value_word : derives doc_rules_must (match nt_index "Value"%string with Some m => m | None => 0 end)
+  ([T_Id] ++ ([T_Paste] ++ [T_IntVal]) ++ []).
+Proof. exact comp_value_word. Qed.
+Example C04_complete_def_word : derives doc_rules_must (match nt_index "Def"%string with Some m => m | None => 0 end)
+  ([T_Def] ++ [T_Id] ++ [T_Semi]).
+Proof. exact comp_def_word. Qed.
 
 (** The two generic theorems behind it (for EVERY grammar program): the full parser model refines to the token-level
     semantics [texec] (token kinds only), and a token-level run that leaves a token unread is unchanged by appending tokens
